@@ -13,6 +13,12 @@ package main
 //	saPc*                    processCertsFromClient: steps in order, guards, key usages
 //	saResume*                does checkForResumption consult the policy / do the recorded
 //	                         certificates get re-verified (finding F6)
+//	saPcVerifyInspected      every `x.Verify(opts)` of processCertsFromClient: is its error inspected
+//	                         (`if err != nil { … return }`) before anything else happens to it
+//	saCvErrReturns           doFullHandshake returns an error when verifyHandshakeSignature does
+//	saSigTypeSm2Suites       the suites typeAndHashFrom maps to the SM2-with-SM3 signature type
+//	saVhs*                   verifyHandshakeSignature, case ECC_SM3: asserted key type, does a failed
+//	                         type assertion return an error, the verification and its failure branch
 
 import (
 	"go/ast"
@@ -28,7 +34,7 @@ func init() {
 		extraHashed[st] = append(extraHashed[st],
 			"serverHandshakeState.doFullHandshake", "serverHandshakeState.checkForResumption",
 			"serverHandshakeState.doResumeHandshake", "serverHandshakeState.createSessionState",
-			"Conn.processCertsFromClient", "requiresClientCert", "verifyHandshakeSignature")
+			"Conn.processCertsFromClient", "requiresClientCert", "verifyHandshakeSignature", "typeAndHashFrom")
 	}
 }
 
@@ -99,6 +105,59 @@ func saEndsInReturn(b *ast.BlockStmt) bool {
 	}
 	_, ok := b.List[len(b.List)-1].(*ast.ReturnStmt)
 	return ok
+}
+
+// saReturnsError: the block ends in a `return` whose last result is not the literal nil.
+func saReturnsError(p *pkg, b *ast.BlockStmt) bool {
+	if b == nil || len(b.List) == 0 {
+		return false
+	}
+	rs, ok := b.List[len(b.List)-1].(*ast.ReturnStmt)
+	if !ok || len(rs.Results) == 0 {
+		return false
+	}
+	return p.src(rs.Results[len(rs.Results)-1]) != "nil"
+}
+
+// saVerifyInspected lists, for every statement `… err :=|= X.Verify(…)` found in the block (and in
+// the bodies of plain `if` statements nested in it), "X:checked" when the NEXT statement of the
+// same block is `if err != nil { … return <error> }`, else "X:unchecked".
+func saVerifyInspected(p *pkg, b *ast.BlockStmt, out *[]string) {
+	if b == nil {
+		return
+	}
+	for i, st := range b.List {
+		switch t := st.(type) {
+		case *ast.AssignStmt:
+			for _, r := range t.Rhs {
+				call, ok := r.(*ast.CallExpr)
+				if !ok {
+					continue
+				}
+				sel, ok := call.Fun.(*ast.SelectorExpr)
+				if !ok || sel.Sel.Name != "Verify" {
+					continue
+				}
+				errVar := p.src(t.Lhs[len(t.Lhs)-1])
+				verdict := "unchecked"
+				if i+1 < len(b.List) {
+					if is, ok := b.List[i+1].(*ast.IfStmt); ok && is.Init == nil && p.src(is.Cond) == errVar+" != nil" && saReturnsError(p, is.Body) {
+						verdict = "checked"
+					}
+				}
+				*out = append(*out, p.src(sel.X)+":"+verdict)
+			}
+		case *ast.IfStmt:
+			if p.src(t.Cond) != "err != nil" {
+				saVerifyInspected(p, t.Body, out)
+				if eb, ok := t.Else.(*ast.BlockStmt); ok {
+					saVerifyInspected(p, eb, out)
+				}
+			}
+		case *ast.BlockStmt:
+			saVerifyInspected(p, t, out)
+		}
+	}
 }
 
 func emitServerAuthn(e *emitter, p *pkg) {
@@ -218,6 +277,8 @@ func emitServerAuthn(e *emitter, p *pkg) {
 	cvFound := false
 	cvSigned, cvPubArg, cvPubDef, cvPubGuard, cvRead := "", "", "", "", ""
 	cvHashedAfter, cvMandatory := false, false
+	cvErrReturns := false
+	cvSigTypeFrom := ""
 	if full != nil && full.Body != nil {
 		for _, st := range full.Body.List {
 			// authPolice := c.config.ClientAuth
@@ -270,6 +331,9 @@ func emitServerAuthn(e *emitter, p *pkg) {
 					if as, ok := b.(*ast.AssignStmt); ok && len(as.Lhs) == 1 && p.src(as.Lhs[0]) == "signed" {
 						cvSigned = p.src(as.Rhs[0])
 					}
+					if as, ok := b.(*ast.AssignStmt); ok && len(as.Rhs) == 1 && len(as.Lhs) > 0 && p.src(as.Lhs[0]) == "sigType" {
+						cvSigTypeFrom = p.src(as.Rhs[0])
+					}
 					if as, ok := b.(*ast.AssignStmt); ok && len(as.Rhs) == 1 && cvRead == "" {
 						if call, ok := as.Rhs[0].(*ast.CallExpr); ok {
 							if sel, ok := call.Fun.(*ast.SelectorExpr); ok && (sel.Sel.Name == "readHandshake" || sel.Sel.Name == "readNextFlightMsg") {
@@ -280,6 +344,11 @@ func emitServerAuthn(e *emitter, p *pkg) {
 					if inner, ok := b.(*ast.IfStmt); ok {
 						if strings.Contains(s, "verifyHandshakeSignature(") && verifyAt < 0 {
 							verifyAt = i
+							// `if err := verifyHandshakeSignature(…); err != nil { …; return <error> }`
+							if inner.Init != nil && strings.Contains(p.src(inner.Init), "verifyHandshakeSignature(") &&
+								p.src(inner.Cond) == "err != nil" && saReturnsError(p, inner.Body) && inner.Else == nil {
+								cvErrReturns = true
+							}
 							ast.Inspect(inner, func(n ast.Node) bool {
 								if call, ok := n.(*ast.CallExpr); ok {
 									if id, ok := call.Fun.(*ast.Ident); ok && id.Name == "verifyHandshakeSignature" && len(call.Args) == 5 {
@@ -355,6 +424,122 @@ func emitServerAuthn(e *emitter, p *pkg) {
 	e.str("saCvPubGuard", cvPubGuard)
 	e.str("saCvRead", cvRead)
 	e.boolean("saCvHashedAfterVerify", cvHashedAfter)
+	e.boolean("saCvErrReturns", cvErrReturns)
+	e.str("saCvSigTypeFrom", cvSigTypeFrom)
+
+	// ---- typeAndHashFrom: the suites whose handshake signature is SM2 with SM3
+	{
+		var sm2Suites []string
+		sigName := ""
+		if fd := p.funcs["typeAndHashFrom"]; fd != nil && fd.Body != nil {
+			ast.Inspect(fd.Body, func(n ast.Node) bool {
+				cl, ok := n.(*ast.CaseClause)
+				if !ok || cl.List == nil || len(cl.Body) != 1 {
+					return true
+				}
+				rs, ok := cl.Body[0].(*ast.ReturnStmt)
+				if !ok || len(rs.Results) != 3 || p.src(rs.Results[2]) != "nil" {
+					return true
+				}
+				if p.src(rs.Results[1]) == "sm3.New" && strings.HasPrefix(p.src(rs.Results[0]), "ECC_") {
+					sigName = p.src(rs.Results[0])
+					for _, x := range cl.List {
+						sm2Suites = append(sm2Suites, p.src(x))
+					}
+				}
+				return true
+			})
+		}
+		e.str("saSigTypeSm2", sigName)
+		e.strList("saSigTypeSm2Suites", sm2Suites)
+	}
+
+	// ---- verifyHandshakeSignature, the case of that signature type
+	{
+		found := false
+		keyType, verifyCond, finalRet := "", "", ""
+		assertReturns, failReturns := false, false
+		var shape []string
+		if fd := p.funcs["verifyHandshakeSignature"]; fd != nil && fd.Body != nil && fd.Type.Params != nil {
+			// the parameter holding the public key (second parameter)
+			var params []string
+			for _, f := range fd.Type.Params.List {
+				for _, n := range f.Names {
+					params = append(params, n.Name)
+				}
+			}
+			pubParam := ""
+			if len(params) >= 2 {
+				pubParam = params[1]
+			}
+			for _, st := range fd.Body.List {
+				if rs, ok := st.(*ast.ReturnStmt); ok && len(rs.Results) == 1 {
+					finalRet = p.src(rs.Results[0])
+				}
+				sw, ok := st.(*ast.SwitchStmt)
+				if !ok || sw.Tag == nil || len(params) == 0 || p.src(sw.Tag) != params[0] {
+					continue
+				}
+				for _, cc := range sw.Body.List {
+					cl := cc.(*ast.CaseClause)
+					if len(cl.List) != 1 || p.src(cl.List[0]) != "ECC_SM3" {
+						continue
+					}
+					found = true
+					okVar := ""
+					for i, b := range cl.Body {
+						switch t := b.(type) {
+						case *ast.AssignStmt:
+							if len(t.Rhs) == 1 && len(t.Lhs) == 2 {
+								if ta, ok := t.Rhs[0].(*ast.TypeAssertExpr); ok && ta.Type != nil && p.src(ta.X) == pubParam {
+									keyType = p.src(ta.Type)
+									okVar = p.src(t.Lhs[1])
+									shape = append(shape, "assert")
+									// the very next statement must be `if !ok { return <error> }`
+									if i+1 < len(cl.Body) {
+										if is, ok := cl.Body[i+1].(*ast.IfStmt); ok && is.Init == nil && is.Else == nil &&
+											p.src(is.Cond) == "!"+okVar && saReturnsError(p, is.Body) {
+											assertReturns = true
+										}
+									}
+									continue
+								}
+							}
+							shape = append(shape, "assign")
+						case *ast.IfStmt:
+							c := p.src(t.Cond)
+							switch {
+							case okVar != "" && c == "!"+okVar && t.Init == nil:
+								shape = append(shape, "assert-failed")
+							case strings.Contains(c, "Verify") && t.Init == nil && t.Else == nil:
+								shape = append(shape, "verify")
+								verifyCond = c
+								failReturns = saReturnsError(p, t.Body)
+							default:
+								shape = append(shape, "if:"+c)
+							}
+						case *ast.ReturnStmt:
+							shape = append(shape, "return")
+						default:
+							shape = append(shape, "other")
+						}
+					}
+				}
+			}
+		}
+		if !found {
+			e.nat("saVhsFound", 0, false)
+		} else {
+			e.nat("saVhsFound", 1, true)
+		}
+		e.comment("verifyHandshakeSignature, case ECC_SM3: `k, ok := pubkey.(<saVhsKeyType>)`; `if !ok { return error }` iff saVhsAssertReturns; `if <saVhsVerifyCond> { return error }`")
+		e.str("saVhsKeyType", keyType)
+		e.boolean("saVhsAssertReturns", assertReturns)
+		e.str("saVhsVerifyCond", verifyCond)
+		e.boolean("saVhsVerifyFailReturns", failReturns)
+		e.strList("saVhsShape", shape)
+		e.str("saVhsFinalReturn", finalRet)
+	}
 
 	// ---- processCertsFromClient
 	pcf := p.funcs["Conn.processCertsFromClient"]
@@ -364,7 +549,7 @@ func emitServerAuthn(e *emitter, p *pkg) {
 	ecdheMinOK := false
 	verifyPolicyExpr, verifyOp, verifyRhs, verifyLenCond := "", "", "", ""
 	anyKU, anyKUOp := "", ""
-	var usages, usagesAny, verified []string
+	var usages, usagesAny, verified, inspected []string
 	setsChains := false
 	var keyKinds []string
 	if pcf != nil && pcf.Body != nil {
@@ -468,6 +653,7 @@ func emitServerAuthn(e *emitter, p *pkg) {
 						}
 					}
 					walk(s.Body, "")
+					saVerifyInspected(p, s.Body, &inspected)
 				case strings.Contains(cond, "len(certs) > 0") || strings.Contains(cond, "len(certs) != 0"):
 					hasTS := false
 					ast.Inspect(s.Body, func(n ast.Node) bool {
@@ -512,6 +698,7 @@ func emitServerAuthn(e *emitter, p *pkg) {
 	e.str("saPcAnyUsageOp", anyKUOp)
 	e.strList("saPcKeyUsagesAny", usagesAny)
 	e.strList("saPcVerified", verified)
+	e.strList("saPcVerifyInspected", inspected)
 	e.boolean("saPcSetsVerifiedChains", setsChains)
 	e.strList("saPcKeyKinds", keyKinds)
 
